@@ -727,6 +727,9 @@ func validateFieldMapping(predecessorType reflect.Type, successorType reflect.Ty
 			return nil, fmt.Errorf("static check failed for mapping %s: %w", mapping, err)
 		}
 
+		// the checker closures below must see this mapping and its field type, not the last one's
+		mapping, successorFieldType := mapping, successorFieldType
+
 		if successorIntermediateInterface {
 			if successorFieldType == reflect.TypeOf((*any)(nil)).Elem() {
 				continue // at request time expand this 'any' to 'map[string]any'
